@@ -34,6 +34,11 @@ ANY_TRUSTED = [
     "theorems hold for every [unspec]; the correspondence does not compare the value of a case in which it occurs (class and missing "
     "fields still are); the model's own IEEE-754 functions (int->float64/float32, float64->float32, round to nearest even) are compared "
     "with the hardware's conversions on every case",
+    "maps / slices with a CONCRETE element type (map[string]int32, []string, map[string]map[string]T ...) are GMap / GArr terms whose members "
+    "are not interfaces (reflect boxes each member on access): the model needs no extra constructor, the driver's toGval walk writes them; "
+    "CYCLIC Go values (var p any; p = &p; type loop *loop; pointers leading into a cycle) and a 64-level pointer chain cannot be / are not "
+    "written as finite gval terms: that stream is decided by the property oracle on the implementation only (every read under a 2 s "
+    "deadline: the call must return an error or a value; a read that does not return is the failing input `any:hang`)",
 ]
 ANY_ASSUME = [
     "readers_agree and its corollaries: strconv.ParseFloat(s, 64) of the decimal text of an integer |z| <= 2^53 is exactly z "
